@@ -301,11 +301,13 @@ def run_end_to_end(task, seed):
     _sc.ThreadPoolExecutor = _cf.ThreadPoolExecutor   # the real executor (another task may have
     # installed the owned one in this worker process)
     hints = [0, 1, 3, 0.125, 0.375, "2", "80", 99.5, D_FUT, None]
-    for h, jit, fr, dl, is_async, at in itertools.product(
+    for h, jit, fr, dl, is_async, at, bs in itertools.product(
             hints, [0.0, 2 * TAU, -1.0], [0.0, 0.5, 1.0], [None, 2 * TAU, 100.0], [False, True],
-            [None, 30.0]):
+            [None, 30.0], [None, "fine", "raises"]):
         if at is not None and is_async:
             continue  # asyncio.wait_for needs an event loop; the sync path shares the delay logic
+        if bs is not None and (at is not None or fr != 0.5):
+            continue
         clock = E.Clock()
         clock.frac = fr
         E.set_clock(clock)
@@ -327,6 +329,13 @@ def run_end_to_end(task, seed):
         else:
             use_sleeper = sleeper
 
+        seen_by_hook = []
+
+        def before_sleep(ctx, s, bs=bs, seen_by_hook=seen_by_hook):
+            seen_by_hook.append(s)
+            if bs == "raises":
+                raise RuntimeError("observability hook failed")
+
         def op(h=h):
             e = Exc429("x")
             if isinstance(h, str):
@@ -343,16 +352,20 @@ def run_end_to_end(task, seed):
                   attempt_timeout_s=at)
         res["execs"] += 1
         case = f"hint={h!r} jitter={jit} draw={fr} deadline={dl} async={is_async} attempt_timeout={at}"
+        ckw = {}
+        if bs is not None:
+            case += f" before_sleep={bs}"
+            ckw["before_sleep"] = before_sleep
         res["nontrivial"].add(hash(case))
         try:
             if is_async:
-                co = AsyncRetry(**kw).call(aop, sleeper=use_sleeper)
+                co = AsyncRetry(**kw).call(aop, sleeper=use_sleeper, **ckw)
                 try:
                     co.send(None)
                 except StopIteration:
                     pass
             else:
-                Retry(**kw).call(op, sleeper=sleeper)
+                Retry(**kw).call(op, sleeper=sleeper, **ckw)
         except Exc429:
             pass
         except Exception as ex:  # noqa: BLE001
@@ -373,6 +386,9 @@ def run_end_to_end(task, seed):
         if not (lo <= s <= hi):
             _viol(res, "c20.end-to-end", f"{case}: waited {s!r}, must be within [{lo!r}, {hi!r}]",
                   task, case)
+        if bs is not None and seen_by_hook != [s]:
+            _viol(res, "c20.end-to-end", f"{case}: before_sleep was told {seen_by_hook}, the wait "
+                                         f"was {s!r}", task, case)
     res["samples"].append({"hint": 3, "jitter_s": 0.25, "draw": 0.5, "deadline": 0.25})
     return res
 
